@@ -9,6 +9,14 @@
      E   a call ends:    id, res, d, fresh         (res = digest of verdict class / State bytes / update JSON;
                                                     fresh = no accumulator proof of an element of the update lives in input memory)
      A   audit:          mem, d                    (inputs looked at while no call is running)
+     M   update:         id, fn, op, case, mem, d, d1, res
+                                                   (UpdateElementProof on ONE element of one copy of the inputs: mem names
+                                                    the cell = that element's proof memory up to its capacity, d / d1 its
+                                                    digest before / after, fn = "upd:" + content of the element before,
+                                                    res = content of the element after; case = the block whose update is
+                                                    applied.  After every M the harness audits the neighbouring cells of
+                                                    the same copy, after every pass over a copy the cells of the source
+                                                    the copies were made from, at the end every cell of every copy.)
 
    in the order in which the events happened.  A Key of Purity is <<fn, case>>
    where case = content hash of (state bytes, block bytes, supplement bytes).
@@ -54,6 +62,16 @@ EndLine(t, ln) ==
        /\ Check(~(e.res = "panic:shared" /\ fn = "apply"), ln, "V:aliasing-guard-fired " \o fn)
        /\ st' = [AfterEnd(st, e) EXCEPT !.seen = (m :> e.d) @@ @]
 
+\* the copies of one case (independently allocated, decoded through the multiproof form, decoded plainly, JSON,
+\* DeepCopy/Copy, Share()d views) are updated under the same keys: Purity!MutSameResult is "obtained how is irrelevant"
+MutLine(t, ln) ==
+  LET e == [key |-> t.fn, mem |-> t.mem, d |-> t.d, d1 |-> t.d1, res |-> t.res] IN
+  /\ Check(t.case = cs, ln, "H:event filed under another case")
+  /\ Check(MutNotInUse(st, e), ln, "H:update of memory a call is running on")
+  /\ Check(MutCellSame(st, e), ln, "V:cell-changed-before-update " \o t.op)
+  /\ Check(MutSameResult(st, e), ln, "V:update-result-differs " \o t.op)
+  /\ st' = AfterMut(st, e)
+
 AuditLine(t, ln) ==
   LET e == [mem |-> t.mem, d |-> t.d] IN
   /\ Check(AuditOK(st, e), ln, "V:input-changed-when-quiet audit")
@@ -72,6 +90,7 @@ Next ==
         /\ CASE t.ev = "B" -> BeginLine(t, l + 1)
              [] t.ev = "E" -> EndLine(t, l + 1)
              [] t.ev = "A" -> AuditLine(t, l + 1)
+             [] t.ev = "M" -> MutLine(t, l + 1)
              [] OTHER -> Reject(l + 1, "H:unknown event") /\ st' = st
         /\ Check(~LastOfSegment(l + 1) \/ Quiet(st'), l + 1, "H:segment ends with a call still open")
         /\ l' = l + 1 /\ UNCHANGED cs
